@@ -172,6 +172,10 @@ fn spawn_worker(id: &str, tier: Tier, profile: &str, shard: u32, nshards: u32, s
         .arg(stats_file)
         .env("NSV_ROOT", root)
         .stdin(Stdio::null());
+    // stderr of the worker goes to a file next to its statistics (inspected when it dies)
+    if let Ok(f) = std::fs::File::create(stats_file.with_extension("err")) {
+        cmd.stderr(Stdio::from(f));
+    }
     if journal {
         cmd.env("NSV_JOURNAL", "1");
     }
@@ -380,6 +384,17 @@ pub fn drive_main(id: &str, tier_arg: &str) -> i32 {
     for j in &jobs {
         use std::os::unix::process::ExitStatusExt;
         let st = j.status.expect("status");
+        let errtxt = std::fs::read_to_string(j.stats_file.with_extension("err")).unwrap_or_default();
+        let _ = std::fs::remove_file(j.stats_file.with_extension("err"));
+        if st.signal().is_some() && errtxt.contains("memory allocation of") {
+            // the harness (or the code under test) ran out of memory: a resource limit, not a verdict
+            eprintln!("nsv: INCONCLUSIVE property={} worker {}/{} aborted on a failed memory allocation", id, j.profile, j.shard);
+            return 2;
+        }
+        if !errtxt.trim().is_empty() && st.code() != Some(0) {
+            let tail: Vec<&str> = errtxt.lines().rev().take(5).collect();
+            eprintln!("nsv: worker {}/{} stderr: {}", j.profile, j.shard, tail.into_iter().rev().collect::<Vec<_>>().join(" | "));
+        }
         if let Some(sig) = st.signal() {
             // journal re-run also died: the journal holds the fatal case
             let jf = out.join(format!("journal-{}-{}-{}.json", id, j.profile, j.shard));
